@@ -1,21 +1,26 @@
 """C16 configuration for bin/check."""
 
 CFG = {
-        "tier_a": ["UFSeq"],
-        "model_targets": ["Table/Model.vo"],
-        "proof_targets": ["Props/C16.vo"],
+        "tier_a": ["UFSeq", "PureFns.scan_for_offset", "PureFns.binary_search_from", "PureFns.radix_passes_for"],
+        "props_files": ["C16", "C16idx"],
+        "model_targets": ["Table/Model.vo", "Index/Cases.vo"],
+        "proof_targets": ["Props/C16.vo", "Props/C16idx.vo"],
         "harness": [{"bin": "h_table", "prefix": "cases_table"},
                     # parallel_insert / parallel_delete / parallel_rehash: same op sequences inside a 4-thread
                     # pool with the table-op cut-off 0, compared with the plain-map oracle only
                     {"bin": "h_table", "name": "h_table_pool", "extra": ["--pool", "4"],
                      "env": {"EGGLOG_PARALLEL_TABLE_OP_CUTOFF": "0", "EGGLOG_PARALLEL_DB_LEVEL_OP_CUTOFF": "0",
-                             "EGGLOG_PARALLEL_INDEX_CONSTRUCTION_CUTOFF": "0"}}],
+                             "EGGLOG_PARALLEL_INDEX_CONSTRUCTION_CUTOFF": "0"}},
+                    # index construction / subset search algorithms through hook H6 (radix sort, gallop and
+                    # binary search of SortedOffsetSlice, merge2_into): kernel-evaluated cases + predicates
+                    {"bin": "h_index", "prefix": "cases_index"}],
         "trusted": [
             "hand-written Gallina model coq/Table/Model.v of SortedWritesTable (serial paths, one shard) and DisplacedTable; tied to the code by the h_table correspondence (same op sequences, physical row ids / physical length / generation compared)",
             "translator /verif/translator for the union-find inside the DisplacedTable model (gen/UFSeq.v)",
+            "translator module purefn.rs (integer / slice routines over N, fail-closed): gen/PureFns.v holds radix_passes_for, SortedOffsetSlice::scan_for_offset and ::binary_search_from as written now; Section variable std_binary_search constrained only by bs_contract ([T]::binary_search documented contract, inhabited by two executable instances); hand models Index/RadixModel.v (array level) and Index/MergeModel.v tied by h_index through hook H6",
         ],
-        "theorem_backed": "SortedWritesTable model: for every op sequence (stage_insert/stage_remove/merge/clear/reads) and every merge function that keeps the key and the incoming sort value, the physical state (append-only rows with stale marks, hash of row ids, offsets, pending queues, rehash above the stale threshold) refines the plain map spec; get_row = map lookup; scans return each live row exactly once and nothing else; fast_subset on the sort column is exact for all five comparison kinds (offsets invariant); rehash preserves the abstraction and bumps the generation; with non-decreasing staged sort values no op sequence panics (the sort-order assertion is the only panic). DisplacedTable model (repaired clear, finding F8): for every op sequence incl. clear, get_row and (constrained) scans never panic and answer as the map displaced id -> (id, canonical id, ts), each id once",
-        "link_only": "index-backed reads (Index/ColumnIndex refresh after merges, rehash and clear; merge_all's touched-set reset) are exercised by one-atom RuleSet queries with all constraint kinds and compared with the plain-map oracle by the harness only (no Gallina model of hash_index); refine / refine_ref / scan_project (chunked) / get_row_column / estimate_size likewise compared with the oracle only; DisplacedTable::fast_subset (timestamp_bounds) is modelled and cross-checked but has no exactness theorem. parallel_insert / parallel_delete / parallel_rehash (multi-shard paths, 4-thread pool, cut-offs 0) are exercised against the plain-map oracle only, for merge functions that are associative in every column (the parallel path pre-merges a batch, which legitimately changes which sort value a payload-preserving merge keeps). NOT covered at all: apply_rebuild / refresh_rows_for_values (value-level rebuilds), clone, two-atom joins, SubsetTracker",
+        "theorem_backed": "index algorithms (Props/C16idx.v): scan_for_offset / binary_search_from (regenerated) return, for every sorted slice, start and target, the first index >= start holding the target or the insertion point, no panic, within 2*len+2 iterations, independent of the library binary search's tie-break; radix-sorted index blocks are sorted permutations (pass count regenerated). SortedWritesTable model: for every op sequence (stage_insert/stage_remove/merge/clear/reads) and every merge function that keeps the key and the incoming sort value, the physical state (append-only rows with stale marks, hash of row ids, offsets, pending queues, rehash above the stale threshold) refines the plain map spec; get_row = map lookup; scans return each live row exactly once and nothing else; fast_subset on the sort column is exact for all five comparison kinds (offsets invariant); rehash preserves the abstraction and bumps the generation; with non-decreasing staged sort values no op sequence panics (the sort-order assertion is the only panic). DisplacedTable model (repaired clear, finding F8): for every op sequence incl. clear, get_row and (constrained) scans never panic and answer as the map displaced id -> (id, canonical id, ts), each id once",
+        "link_only": "index-backed reads (Index/ColumnIndex refresh after merges, rehash and clear; merge_all's touched-set reset) are exercised by one-atom RuleSet queries with all constraint kinds and compared with the plain-map oracle by the harness only (hash_index: only its radix sort / merge2 / pass count are modelled, see Props/C02idx.v; merge_sorted_blocks_dedup, build_subsets_from_sorted and the intersection loops are not); refine / refine_ref / scan_project (chunked) / get_row_column / estimate_size likewise compared with the oracle only; DisplacedTable::fast_subset (timestamp_bounds) is modelled and cross-checked but has no exactness theorem. parallel_insert / parallel_delete / parallel_rehash (multi-shard paths, 4-thread pool, cut-offs 0) are exercised against the plain-map oracle only, for merge functions that are associative in every column (the parallel path pre-merges a batch, which legitimately changes which sort value a payload-preserving merge keeps). NOT covered at all: apply_rebuild / refresh_rows_for_values (value-level rebuilds), clone, two-atom joins, SubsetTracker",
         "assumptions": [
             "values are unbounded nat; Value::stale() (u32::MAX) never occurs as data",
             "one shard (no thread pool installed): pending buffers are applied in staging order",
